@@ -252,6 +252,9 @@ F04Layer(a, L, wbits) == Op(a, L) = "lin" /\ (InEffW(a, wbits, L) # StaticIn(a, 
 (*                                  weights only / on all parameters (also the coefficients)               *)
 (*   export, summary, upd           observers (export() restores theta; upd = update_softmax_options(T))   *)
 (*   export!                        export() compared with the eval-mode model: runs an eval forward       *)
+(*   fork                           obj := deepcopy(obj); the original is perturbed, the history continues *)
+(*                                  on the copy, whose state is the state at the fork: nothing changes     *)
+(*   loadT                          load_state_dict of another temperature: no effect on an arg-max        *)
 (* What theta encodes:                                                                                     *)
 (*   "soft"  no forward pass in a hard-sampling mode yet (the conversion samples the new MPS modules in    *)
 (*           training mode: a new model holds a SOFT theta) - the cost is a mixture, nothing is claimed    *)
